@@ -75,19 +75,19 @@
          'claims':'the hand application of the Vector::insert / Vector::erase contracts used by the level-2 units (wrappers Vector_insert_g / Vector_erase_g) produces exactly a state that satisfies the ensures macros proved by c17_vec_insert_* / c17_vec_erase_* (size, returned iterator, element-wise content, kept or fresh-and-freed storage)'}@*/
 
 /* ---- level 2: the interval-set operations (plain harness, Vector::insert/erase applied by contract) */
-/*@unit {'name':'c17_remove_c8', 'props':['C17'], 'entry':'h_remove', 'kind':'bounded', 'backend':'cadical', 'unwind':9, 'unwindset':['Zones_remove.0:7'], 'loop_contracts':False, 'defines':['NV=4','CAPV=8','L2_BY_CONTRACT'], 'cost':50,
+/*@unit {'name':'c17_remove_c8', 'props':['C17'], 'entry':'h_remove', 'kind':'bounded', 'backend':'cadical', 'unwind':9, 'unwindset':['Zones_remove.0:6'], 'loop_contracts':False, 'defines':['NV=4','CAPV=8','L2_BY_CONTRACT'], 'cost':50,
          'bound':'at most 4 intervals before the call in a block of capacity 8 (no reallocation); main loop unwound 6 times, helper loops 8 times, unwinding assertions on',
          'replay':'c17_zones', 'witness_defines':[], 'witness_vars':['w_n','w_x','w_xm','w_c','w_sm','w_smx','w_pos','w_posm','w_a','w_b','w_pt'],
          'claims':'Zones::remove(x,xm) on a sorted, disjoint, in-bounds interval set leaves it sorted, disjoint and in bounds; afterwards no interval contains a point of the open range (x,xm); every point offered afterwards was offered before (nothing is re-opened); every point offered before and outside [x,xm] is still offered; weight sums stay positive; only the vector changes; Vector::insert/erase are called within their contracts'}@*/
-/*@unit {'name':'c17_remove_c4', 'props':['C17'], 'entry':'h_remove', 'kind':'bounded', 'backend':'cadical', 'unwind':9, 'unwindset':['Zones_remove.0:7'], 'loop_contracts':False, 'defines':['NV=4','CAPV=4','L2_BY_CONTRACT'], 'cost':50,
+/*@unit {'name':'c17_remove_c4', 'props':['C17'], 'entry':'h_remove', 'kind':'bounded', 'backend':'cadical', 'unwind':9, 'unwindset':['Zones_remove.0:6'], 'loop_contracts':False, 'defines':['NV=4','CAPV=4','L2_BY_CONTRACT'], 'cost':50,
          'bound':'at most 4 intervals in an exact-size block of capacity 4: every split reallocates (storage moves, old block freed); loops as in c17_remove_c8',
          'replay':'c17_zones', 'witness_defines':[], 'witness_vars':['w_n','w_x','w_xm','w_c','w_sm','w_smx','w_pos','w_posm','w_a','w_b','w_pt'],
          'claims':'same as c17_remove_c8 when the split has to grow the vector: the iterator is re-seated on the new block and the freed block is never touched; with 4 live intervals any access past the live elements is outside the storage object'}@*/
-/*@unit {'name':'c17_insert_c8', 'props':['C17'], 'entry':'h_insert', 'kind':'bounded', 'backend':'cadical', 'unwind':9, 'unwindset':['Zones_insert.0:7'], 'loop_contracts':False, 'defines':['NV=4','CAPV=8','L2_BY_CONTRACT'], 'cost':80,
+/*@unit {'name':'c17_insert_c8', 'props':['C17'], 'entry':'h_insert', 'kind':'bounded', 'backend':'cadical', 'unwind':9, 'unwindset':['Zones_insert.0:6'], 'loop_contracts':False, 'defines':['NV=4','CAPV=8','L2_BY_CONTRACT'], 'cost':80,
          'bound':'at most 4 intervals before the call in a block of capacity 8; main loop unwound 6 times, helper loops 8 times',
          'replay':'c17_zones', 'witness_defines':[], 'witness_vars':['w_n','w_x','w_xm','w_c','w_sm','w_smx','w_pos','w_posm','w_a','w_b','w_pt','w_ec','w_esm','w_esmx'],
          'claims':'Zones::insert(e) (weighted insert) keeps the interval set sorted, disjoint and in bounds and does not change the set of offered points (it never re-opens an excluded position and never loses a free one); a point strictly inside an interval and strictly inside e gets exactly e added to its three cost terms, a point strictly inside an interval and outside [e.x,e.xm] keeps its cost terms; weight sums stay positive for non-negative e.sm; only the vector changes'}@*/
-/*@unit {'name':'c17_insert_c4', 'props':['C17'], 'entry':'h_insert', 'kind':'bounded', 'backend':'cadical', 'unwind':9, 'unwindset':['Zones_insert.0:7'], 'loop_contracts':False, 'defines':['NV=4','CAPV=4','L2_BY_CONTRACT'], 'cost':80,
+/*@unit {'name':'c17_insert_c4', 'props':['C17'], 'entry':'h_insert', 'kind':'bounded', 'backend':'cadical', 'unwind':9, 'unwindset':['Zones_insert.0:6'], 'loop_contracts':False, 'defines':['NV=4','CAPV=4','L2_BY_CONTRACT'], 'cost':80,
          'bound':'at most 4 intervals in an exact-size block of capacity 4: the first split reallocates; loops as in c17_insert_c8',
          'replay':'c17_zones', 'witness_defines':[], 'witness_vars':['w_n','w_x','w_xm','w_c','w_sm','w_smx','w_pos','w_posm','w_a','w_b','w_pt','w_ec','w_esm','w_esmx'],
          'claims':'same as c17_insert_c8 when a split has to grow the vector (iterators re-seated, freed block never touched)'}@*/
@@ -185,8 +185,12 @@ __CPROVER_ensures((f == 1 && m == 0) ==> __CPROVER_return_value.sm >= 0.5f);
  * Zones code calls the vector (level 2). */
 #define VMAX 8
 #define ESZ ((long)sizeof(Exclusion))
-#define VSZ(v)  ((size_t)((v)->m_last - (v)->m_first))
-#define VCAP(v) ((size_t)((v)->m_end - (v)->m_first))
+/* element counts from byte offsets without a 64-bit division (each one costs the SAT back end ~30k variables): offsets
+   that are not a multiple of the element size, or beyond 8 elements, map to 99 and fail every bound below */
+#define NELEMS(off) ((off) == 0 * ESZ ? 0u : (off) == 1 * ESZ ? 1u : (off) == 2 * ESZ ? 2u : (off) == 3 * ESZ ? 3u : (off) == 4 * ESZ ? 4u \
+                   : (off) == 5 * ESZ ? 5u : (off) == 6 * ESZ ? 6u : (off) == 7 * ESZ ? 7u : (off) == 8 * ESZ ? 8u : 99u)
+#define VSZ(v)  ((size_t)NELEMS(OFF((v)->m_last) - OFF((v)->m_first)))
+#define VCAP(v) ((size_t)NELEMS(OFF((v)->m_end) - OFF((v)->m_first)))
 Exclusion g_v0[VMAX + 1]; size_t g_n0, g_cap0, g_idx; Exclusion *g_first0;
 #define FBITS(f) (*(const uint32 *)&(f))
 #define EL_EQ(a, b) (FBITS((a).x) == FBITS((b).x) && FBITS((a).xm) == FBITS((b).xm) && FBITS((a).c) == FBITS((b).c) && FBITS((a).sm) == FBITS((b).sm) \
@@ -237,7 +241,7 @@ __CPROVER_ensures(VEC_ERASE_POST_ELEMS(self));
 
 static void vec_snapshot(const Exclusions *v, const Exclusion *p)
 {
-    g_n0 = VSZ(v); g_cap0 = VCAP(v); g_first0 = v->m_first; g_idx = (size_t)(p - v->m_first);
+    g_n0 = VSZ(v); g_cap0 = VCAP(v); g_first0 = v->m_first; g_idx = (size_t)NELEMS(OFF(p) - OFF(v->m_first));
     for (size_t k = 0; k < VMAX; ++k) if (k < g_n0) g_v0[k] = v->m_first[k];
 }
 
@@ -305,14 +309,14 @@ float g_pt; bool g_cov0;      /* ghost point (an arbitrary position on the axis)
 int g_at0; Exclusion g_at0v;  /* index and value of the interval that contained g_pt strictly inside before the call (-1: none) */
 #define ZAT(z, k) ((z)->_exclusions.m_first[k])
 
-/* sorted, disjoint (touching allowed), every interval non-inverted, all inside [_pos,_posm]; comparisons are false on NaN */
+/* sorted, disjoint (touching allowed), every interval non-empty (x < xm), all inside [_pos,_posm]; comparisons are false on NaN */
 static bool zones_wf(const Zones *z)
 {
     const size_t n = VSZ(&z->_exclusions);
     float prev = z->_pos;
     for (size_t k = 0; k < n; ++k) {
         const Exclusion *e = &ZAT(z, k);
-        if (!(prev <= e->x && e->x <= e->xm)) return false;
+        if (!(prev <= e->x && e->x < e->xm)) return false;
         prev = e->xm;
     }
     return n == 0 || prev <= z->_posm;
@@ -353,7 +357,9 @@ static bool zones_pos_pre(const Zones *z)
 }
 
 /* ---- Zones::remove(x, xm) */
-#define ZONES_OK(z)               (VEC_OK(&(z)->_exclusions) && FIN((z)->_pos) && FIN((z)->_posm) && zones_wf(z))       /* finite bounds => every interval bound is finite */
+/* finite bounds => every interval bound is finite.  _pos < _posm: the degenerate axis (_pos == _posm, one empty interval) is the
+   subject of unit c17_degenerate_axis (finding: such an axis can never be excluded) */
+#define ZONES_OK(z)               (VEC_OK(&(z)->_exclusions) && FIN((z)->_pos) && FIN((z)->_posm) && (z)->_pos < (z)->_posm && zones_wf(z))
 #define REMOVE_PRE(z, x, xm)      (ZONES_OK(z) && VSZ(&(z)->_exclusions) <= NV && zones_cost_wf(z) && NNAN(x) && NNAN(xm))
 #define REMOVE_POST_WF(z)         (VEC_OK(&(z)->_exclusions) && zones_wf(z))                                 /* sorted, disjoint, inside its bounds */
 #define REMOVE_POST_EXCL(cov, x, xm) (!(cov) || !((x) < g_pt && g_pt < (xm)))                               /* never offers a position of the excluded range */
@@ -762,7 +768,7 @@ void h_find_under(void)
     __CPROVER_assume(ZONES_OK(z) && FIN(a));
     const Exclusion *it = Zones_find_exclusion_under(z, a);
     __CPROVER_assert(SAME(it, z->_exclusions.m_first) && OFF(it) >= 0 && OFF(it) <= OFF(z->_exclusions.m_last) && OFF(it) % ESZ == 0, "find_exclusion_under: result in [begin,end]");
-    const size_t idx = (size_t)(it - z->_exclusions.m_first);
+    const size_t idx = (size_t)NELEMS(OFF(it));
     for (size_t k = 0; k < NV; ++k) if (k < w_n) {
         if (k < idx) __CPROVER_assert(ZAT(z, k).xm <= a, "find_exclusion_under: intervals before the result end at or before x");
         if (k > idx) __CPROVER_assert(ZAT(z, k).x > a, "find_exclusion_under: intervals after the result start after x");
@@ -787,7 +793,7 @@ void h_initialise(void)
     __CPROVER_assert(ZAT(z, 0).x == a && ZAT(z, 0).xm == b && ZAT(z, 0).open, "initialise: the interval is the open range [xmin,xmax]");
     __CPROVER_assert(ZAT(z, 0).sm >= 0.5f, "initialise: the initial weight sum is at least 0.5");
     __CPROVER_assert(z->_pos == a && z->_posm == b && FBITS(z->_margin_len) == FBITS(ml) && FBITS(z->_margin_weight) == FBITS(mw), "initialise: bounds and margins stored");
-    __CPROVER_assert(!(a <= b) || (zones_wf(z) && zones_cost_wf(z)), "initialise: sorted, disjoint and in bounds for a well-formed range");
+    __CPROVER_assert(!(a < b) || (zones_wf(z) && zones_cost_wf(z)), "initialise: sorted, disjoint, non-empty and in bounds for a non-degenerate range xmin < xmax");
     CANARY();
 }
 #endif
